@@ -5,6 +5,7 @@ import (
 	"time"
 
 	"github.com/aperturerobotics/util/backoff"
+	"github.com/aperturerobotics/util/verifhook"
 	cbackoff "github.com/cenkalti/backoff/v4"
 )
 
@@ -100,6 +101,7 @@ func (r *runningRoutine[K, V]) execute(
 	exitedCh chan struct{},
 	waitCh <-chan struct{},
 ) {
+	verifhook.Go("keyed.execute", r)
 	var err error
 	if waitCh != nil {
 		select {
@@ -117,6 +119,7 @@ func (r *runningRoutine[K, V]) execute(
 	cancel()
 	close(exitedCh)
 
+	verifhook.Lock(r.k)
 	r.k.mtx.Lock()
 	if r.ctx == ctx {
 		r.err = err
@@ -134,11 +137,14 @@ func (r *runningRoutine[K, V]) execute(
 				dur := r.retryBo.NextBackOff()
 				if dur != backoff.Stop {
 					r.deferRetry = time.AfterFunc(dur, func() {
+						verifhook.Go("keyed.retrytimer", r)
+						verifhook.Lock(r.k)
 						r.k.mtx.Lock()
 						if r.k.ctx != nil && r.k.routines[r.key] == r && r.exited {
 							r.start(r.k.ctx, r.exitedCh, true)
 						}
 						r.k.mtx.Unlock()
+						verifhook.Unlocked(r.k)
 					})
 				}
 			}
@@ -149,6 +155,7 @@ func (r *runningRoutine[K, V]) execute(
 		}
 	}
 	r.k.mtx.Unlock()
+	verifhook.Unlocked(r.k)
 }
 
 // remove is called when the routine is removed / canceled.
@@ -174,6 +181,8 @@ func (r *runningRoutine[K, V]) remove() {
 	}
 
 	timerCb := func() {
+		verifhook.Go("keyed.removetimer", r)
+		verifhook.Lock(r.k)
 		r.k.mtx.Lock()
 		if r.k.routines[r.key] == r && r.deferRemove != nil {
 			_ = r.deferRemove.Stop()
@@ -181,6 +190,7 @@ func (r *runningRoutine[K, V]) remove() {
 			removeNow()
 		}
 		r.k.mtx.Unlock()
+		verifhook.Unlocked(r.k)
 	}
 	r.deferRemove = time.AfterFunc(r.k.releaseDelay, timerCb)
 }
